@@ -11,8 +11,10 @@ from ..snapshot import AnalysisBroken
 UNITS = None
 DAEMON = "echsd.c"
 EXPLANATION = (
-    "R12.1: the guard of the uncounted spawn in task_cb and the guard selecting the no-run flag in run_task are normalised to linear "
-    "forms nsim < max_simul + c and compared: every uncounted spawn must be a no-run spawn. R12.2: nsim++ is paired with a started child "
+    "R12.1: the timer callback and run_task() are walked with the limit code fixed to every value of its 6-bit field and the run counter "
+    "fixed to a grid around it: every spawn the callback does not count carries the no-run flag, with an explicit limit M a run is counted "
+    "only while fewer than M are running, and below the limit the occurrence is counted and run for real. R12.8: with the limit unset "
+    "(the all-ones code the serialiser does not write) both places behave as unlimited for every counter value. R12.2: nsim++ is paired with a started child "
     "watcher whose data is the task and whose callback holds the only decrement. R12.3: every element of a function-local static that a "
     "function writes on some path is written on all paths before the object is used (no state leaking between spawns). R12.4: the no-run "
     "flag text is an option of the executor and its test bypasses prep_task/run_task; the MAX-SIMUL encoding round-trips over the whole field. R12.5: the child watcher whose callback frees the slot is registered for "
@@ -20,11 +22,11 @@ EXPLANATION = (
     "reaches failure handling, so a failed spawn is never counted or watched as a running execution.")
 NOT_DECIDED = "overlapping process lifetimes under all interleavings of timer expiry and child exit; the behaviour itself"
 TRUSTED = ["clang 14 parser/CFG builder", "echse-facts extractor", "python rule engines in /verif/sa"]
-LEVEL_TEXT = ("Static verdict on necessary structural clauses of C12: every real run is counted (guard implication over linear forms), "
+LEVEL_TEXT = ("Static verdict on necessary structural clauses of C12: every real run is counted, counted only below the limit and run below it (value-fixed walks over the limit x counter grid), an unset limit is unlimited for every reader, "
               "increment/decrement pairing, no static state leaking between spawns of different tasks, agreement of the no-run flag and "
               "of the MAX-SIMUL encoding between daemon, parser, serialiser and executor. It decides those clauses, not process-lifetime overlap.")
 LEVEL_NOTE = "Trusted: clang 14 front end/CFG, extractor, rule engines. libev callback ordering is not modelled."
-TECHNIQUE = "static analysis: guard normalisation to linear forms, definite-assignment must-facts for static locals, dominance, table agreement"
+TECHNIQUE = "static analysis: value-fixed path-sensitive walks of the two limit guards over the whole field domain, definite-assignment must-facts for static locals, dominance, table agreement"
 
 
 def linear_lt(c, truth=True):
@@ -65,88 +67,91 @@ def linear_lt(c, truth=True):
     return A, B, off, neg
 
 
-def r12_1(prog, rep):
-    rid = "R12.1"
-    tc = prog.fn("task_cb", DAEMON)
-    rt = prog.fn("run_task", DAEMON)
-    cfg = tc.cfg
-    # guard in task_cb
-    guards = []
-    for b in cfg.blocks:
-        c = cfg.cond(b)
-        if c is None:
-            continue
-        c = tc.expand(c)   # a guard may be spelt through a temporary
-        texts = [lv(n) for n in walk(c) if n.get("k") == "mem"]
-        if any(t.endswith("nsim") for t in texts) and any(t.endswith("max_simul") for t in texts):
-            guards.append((b, c))
-    if len(guards) != 1:
-        raise AnalysisBroken("R12.1: expected one nsim/max_simul guard in task_cb, found %d" % len(guards))
-    gb, gc = guards[0]
-    g = linear_lt(gc)
-    if g is None:
-        raise AnalysisBroken("R12.1: task_cb guard not a linear comparison: %s" % show(gc))
-    # which edge is counted? the one from which nsim++ is reachable before exit
-    def has_inc(x):
-        return any(lv(l).endswith("nsim") and step_of(kind, n) == 1 for l, kind, n in writes(x))
+def _limit_outcomes(prog, M, n):
+    """(what the timer callback does, whether run_task() selects the no-run flag) with the limit code fixed to M and the run counter to n
+    (value-fixed walks of task_cb and run_task; nothing else is assumed, every other condition forks)."""
+    from ..absw import AbsWalk
+    out = []
+    for f in (prog.fn("task_cb", DAEMON), prog.fn("run_task", DAEMON)):
+        cfg = f.cfg
+        lim = ns = None
+        for b, i, x, line in cfg.all_elems():
+            for nn in walk(cfg.resolve(x) if isinstance(x, dict) else {}):
+                if nn.get("k") == "mem" and nn.get("f") == "max_simul":
+                    lim = lv(nn)
+                if nn.get("k") == "mem" and nn.get("f") == "nsim":
+                    ns = lv(nn)
+        if lim is None or ns is None:
+            raise AnalysisBroken("R12.1: %s does not read max_simul/nsim any more" % f.name)
+        seen = set()
 
-    def has_run(x):
-        return elem_has_call(x, "run_task")
-    counted_edge = None
-    for si in (0, 1):
-        hits, _ = forward_scan(cfg, edge_start(cfg, gb, si), lambda b, i, x: "hit" if has_inc(x) else None)
-        if hits:
-            counted_edge = si if counted_edge is None else "both"
-    if counted_edge not in (0, 1):
-        rep.fail(rid, "task_cb/counted-branch", tc.loc(), "cannot identify the counted branch (nsim++) of task_cb: %s" % counted_edge)
-        return
-    unc = 1 - counted_edge
-    hits, _ = forward_scan(cfg, edge_start(cfg, gb, unc), lambda b, i, x: "hit" if has_run(x) else None)
-    if not hits:
-        rep.ok(rid, "task_cb/uncounted-branch", tc.loc(), "the uncounted branch spawns nothing")
-        return
-    # counted iff  nsim < M + c1   (possibly negated / edge-flipped)
-    A, B, c1, neg = g
-    counted_when_true = (counted_edge == 0) != neg
-    # guard in run_task selecting the no-run flag
-    rcfg = rt.cfg
-    nd_sites = []
-    for b, i, x, line in rcfg.all_elems():
-        for l, kind, n in writes(x):
-            if n.get("k") == "bin" and n["op"] == "=" and strip_casts(n["r"]).get("k") == "str" and strip_casts(n["r"])["v"].startswith("-n"):
-                nd_sites.append((b, i, n))
-    if len(nd_sites) != 1:
-        raise AnalysisBroken("R12.1: expected one assignment of the no-run flag in run_task, found %d" % len(nd_sites))
-    nb, ni, nn = nd_sites[0]
-    # the controlling condition: unique predecessor with a 2-way branch
-    preds = rcfg.lpreds[nb]
-    ctl = None
-    for p in preds:
-        c = rcfg.cond(p)
-        if c is not None:
-            ctl = (p, rt.expand(c), rcfg.blocks[p].succs.index(nb))
-    if ctl is None:
-        raise AnalysisBroken("R12.1: no controlling condition for the no-run flag assignment")
-    pb, pc, psi = ctl
-    g2 = linear_lt(pc)
-    if g2 is None:
-        raise AnalysisBroken("R12.1: run_task guard not linear: %s" % show(pc))
-    A2, B2, c2, neg2 = g2
-    norun_when_true = (psi == 0) != neg2  # flag set when (nsim < M + c2) is `norun_when_true`
-    # express both as thresholds on nsim:  counted <=> nsim < M + c1 ; norun <=> nsim >= M + c2
-    if not (A.endswith("nsim") and A2.endswith("nsim") and B.endswith("max_simul") and B2.endswith("max_simul")):
-        raise AnalysisBroken("R12.1: guards do not compare nsim with max_simul: %s / %s" % (g, g2))
-    if not counted_when_true or norun_when_true:
-        raise AnalysisBroken("R12.1: unexpected guard polarity (counted_when_lt=%s, norun_when_lt=%s)" % (counted_when_true, norun_when_true))
+        def effect(b, i, x, store, _s=seen):
+            upd = {lim: M}
+            if ns not in store and "$ns" not in store:
+                upd[ns] = n          # (re-)pinned after the local task pointer has been initialised
+            for l, kind, nn in writes(x):
+                if lv(l) == ns and step_of(kind, nn) == 1:
+                    _s.add("counted")
+                    upd["$ns"] = 1
+                if nn.get("k") == "bin" and nn["op"] == "=" and strip_casts(nn["r"]).get("k") == "str" and strip_casts(nn["r"])["v"].startswith("-n"):
+                    _s.add("norun")
+            if elem_has_call(x, "run_task"):
+                _s.add("spawn")
+            return upd
+
+        def call_eval(c, store):
+            return 4711 if c.get("fn") == "run_task" else None      # a pid: the spawn went well
+        scal = {l_["n"] for l_ in f.locals if (l_.get("t") or "").replace("const ", "") in ("int", "unsigned int", "bool", "_Bool", "size_t", "long", "unsigned long")}
+        w = AbsWalk(f, {lim, ns} | scal, init={lim: M, ns: n}, effect=effect, call_eval=call_eval, max_states=100000).run()
+        out.append(seen)
+    tc, rt = out
+    return ("counted" if "counted" in tc else ("uncounted-spawn" if "spawn" in tc else "none")), ("norun" in rt)
+
+
+def r12_1(prog, rep):
+    """The two places that compare the run counter with the limit — the timer callback (count and supervise, or spawn unsupervised) and
+    run_task() (real run, or the executor's no-run flag) — are evaluated over the whole 6-bit domain of the limit code and a grid of
+    counter values around it.  (a) a spawn the callback does not count must be a no-run; (b) with an explicit limit M a run is counted
+    only while fewer than M are running; (c) below the limit the occurrence is counted and run for real."""
+    rid = "R12.1"
+    from ..rules import encodings
+    width = encodings.field_width(prog, "max_simul")
+    unset = (1 << width) - 1
+    bad = {"a": [], "b": [], "c": []}
+    npts = 0
+    for M in range(0, unset + 1):
+        for n in sorted({0, 1, max(M - 1, 0), M, M + 1, unset - 1, unset, unset + 1, 1000}):
+            c, norun = _limit_outcomes(prog, M, n)
+            npts += 1
+            if c == "uncounted-spawn" and not norun:
+                bad["a"].append((M, n))
+            if M != unset and c == "counted" and not n < M:
+                bad["b"].append((M, n))
+            if M != unset and n < M and (c != "counted" or norun):
+                bad["c"].append((M, n))
+    tc = prog.fn("task_cb", DAEMON)
     key = "task_cb/uncounted-implies-no-run"
-    if c1 >= c2:
-        rep.ok(rid, key, tc.loc(cfg.blocks[gb].elems[-1].get("line")),
-               "uncounted spawn <=> nsim >= max_simul%+d implies no-run <=> nsim >= max_simul%+d" % (c1, c2))
+    if bad["a"]:
+        M, n = bad["a"][0]
+        rep.fail(rid, key, tc.loc(), "with limit code %d and %d executions running task_cb spawns without counting the run while run_task does not select the "
+                 "no-run flag: the job runs for real and is never counted, so a limit N admits unboundedly many concurrent runs (%d such points, "
+                 "e.g. %s)" % (M, n, len(bad["a"]), bad["a"][:4]), {"points": bad["a"][:32]})
     else:
-        rep.fail(rid, key, tc.loc(cfg.blocks[gb].elems[-1].get("line")),
-                 "task_cb counts a run only while nsim < max_simul%+d, but run_task selects the no-run flag only when nsim >= max_simul%+d: "
-                 "for nsim in [max_simul%+d, max_simul%+d) the job runs for real and is never counted, so a limit N admits unboundedly many "
-                 "concurrent runs" % (c1, c2, c1, c2), {"task_cb": show(gc), "run_task": show(pc)})
+        rep.ok(rid, key, tc.loc(), "every spawn the timer callback does not count carries the no-run flag (%d points of the limit x counter grid)" % npts)
+    key = "task_cb/counted-only-below-limit"
+    if bad["b"]:
+        M, n = bad["b"][0]
+        rep.fail(rid, key, tc.loc(), "with an explicit limit of %d and %d executions already running another run is counted and started: more than N run at "
+                 "the same time (%d such points, e.g. %s)" % (M, n, len(bad["b"]), bad["b"][:4]), {"points": bad["b"][:32]})
+    else:
+        rep.ok(rid, key, tc.loc(), "with an explicit limit M a run is counted only while fewer than M are running (all M in 0..%d)" % (unset - 1))
+    key = "task_cb/runs-below-limit"
+    if bad["c"]:
+        M, n = bad["c"][0]
+        rep.fail(rid, key, tc.loc(), "with a limit of %d and only %d executions running the occurrence is not started as a counted real run "
+                 "(%d such points, e.g. %s)" % (M, n, len(bad["c"]), bad["c"][:4]), {"points": bad["c"][:32]})
+    else:
+        rep.ok(rid, key, tc.loc(), "below its limit an occurrence is counted and run for real")
 
 
 def r12_2(prog, rep):
@@ -432,8 +437,32 @@ def r12_7(prog, rep, rid="R12.7"):
                  "is neither started nor reported as not run")
 
 
+def r12_8(prog, rep, rid="R12.8"):
+    """`unset` means unlimited for every reader.  The field holds the limit in w bits; the parser stores N+1, make_task() takes one off
+    again, so an event without the property carries the all-ones code — the value the serialiser treats as `do not write`.  Walked with
+    the limit fixed to that code and the run counter fixed at and beyond it (value-fixed walk): the timer callback must still take its
+    counted branch, and run_task() must not select the no-run flag."""
+    from ..rules import encodings
+    width = encodings.field_width(prog, "max_simul")
+    unset = (1 << width) - 1
+    tc = prog.fn("task_cb", DAEMON)
+    rt = prog.fn("run_task", DAEMON)
+    for running in (0, unset - 1, unset, unset + 1, 1000):
+        c, norun = _limit_outcomes(prog, unset, running)
+        for f, ok, what, did in ((tc, c == "counted", "the timer callback", "spawned uncounted" if c != "none" else "dropped"),
+                                 (rt, not norun, "run_task()", "reported as not run instead of being started")):
+            key = "%s/unset-is-unlimited(nsim=%d)" % (f.name, running)
+            if ok:
+                rep.ok(rid, key, f.loc(), "with the limit unset (code %d) and %d executions running %s still %s" % (
+                    unset, running, what, "counts and supervises the run" if f is tc else "starts the job for real"), nontrivial=(running == unset))
+            else:
+                rep.fail(rid, key, f.loc(), "a task without X-ECHS-MAX-SIMUL carries the code %d (`unset`, which the serialiser does not write); with %d of its "
+                         "executions running %s compares it like a limit: the occurrence is %s — `unset` is a silent limit of %d, not unlimited" % (
+                             unset, running, what, did, unset))
+
+
 def run(prog, rep, tier, snap):
-    rep.rule("R12.1", "every real run is counted: uncounted spawn implies no-run (guard implication)", 1)
+    rep.rule("R12.1", "every real run is counted, counted only below the limit, and run below it (limit x counter grid)", 3)
     rep.call(r12_1, prog, rep)
     rep.rule("R12.2", "nsim increment/decrement pairing through the child watcher", 5)
     rep.call(r12_2, prog, rep)
@@ -444,6 +473,8 @@ def run(prog, rep, tier, snap):
     rep.call(r12_4, prog, rep, snap)
     rep.rule("R12.7", "every occurrence that comes due reaches the executor (run or reported not run)", 1)
     rep.call(r12_7, prog, rep)
+    rep.rule("R12.8", "an unset limit is unlimited for the daemon as it is for the serialiser", 10)
+    rep.call(r12_8, prog, rep)
     from ..rules import watch
     rep.rule("R12.5", "child watchers whose callback means 'terminated' are registered for termination only", 1)
     rep.call(watch.child_watchers, prog, rep, "R12.5", "echsd.c")
